@@ -128,6 +128,7 @@ def run(ctx):
     # ---------------------------------------------------------------- FIXED
     C05.fixed_rule(ctx, prefix='C25-FIXED')
     C05.embedded_rule(ctx, prefix='C25-FIXED')
+    C05.vars_rule(ctx, prefix='C25-FIXED')
     # ---------------------------------------------------------------- INDEXTWIN
     # s[i]: Python counts from 0, SUBSTR from 1.  The shift is implemented twice in StringMixin.__getitem__ -- for a constant index in Python
     # (`if value >= 0: value += 1`) and for a computed index in SQL (['IF', ['GE', i, 0], i + 1, ...]).  The two siblings must draw the line at
